@@ -8,6 +8,9 @@ against constants that are cut points of the partition (hence decided for the wh
 """
 
 
+from fractions import Fraction
+
+
 def le0(c):          # `x <= 0` (either zero, negative, -inf); NaN excluded
     return c.ninf or c.neg or c.zero
 
@@ -23,6 +26,14 @@ def nonfinite(c):
 def _skip():
     from rules_c04 import Undecided
     raise Undecided()
+
+
+TINY = (Fraction(2) ** -1074, Fraction(2) ** -149)
+
+
+def half_not_pos(c):
+    """`0.5 * x <= 0` or nan, as documented for the degrees-of-freedom parameters: true also for the smallest subnormal (0.5 * x rounds to 0)"""
+    return not_pos(c) or (c.point and c.lo in TINY)
 
 
 def errs(*pairs):
@@ -55,6 +66,8 @@ def _lognormal_cv(c):
         return {"Ok"}
     if m.pinf:
         return None
+    if cv.pos and cv.lo is not None and cv.lo >= Fraction(10) ** 18:
+        return None    # cv * cv overflows: outside the range where the docs promise anything
     if cv.pinf and m.pos:
         return {"BadVariance", "Ok"} if False else None   # docs: cv >= 0 only; infinite cv not discussed
     return errs((not_pos(m), "MeanTooSmall"), (cv.neg or cv.ninf or cv.nan, "BadVariance"))
@@ -75,15 +88,15 @@ def _gamma_new(c):
 
 def _chi_new(c):
     # DoFTooSmall: "`0.5 * k <= 0` or `nan`."
-    return errs((not_pos(c["k"]), "DoFTooSmall"))
+    return errs((half_not_pos(c["k"]), "DoFTooSmall"))
 
 
 def _student_new(c):
-    return errs((not_pos(c["nu"]), "DoFTooSmall"))
+    return errs((half_not_pos(c["nu"]), "DoFTooSmall"))
 
 
 def _fisher_new(c):
-    return errs((not_pos(c["m"]), "MTooSmall"), (not_pos(c["n"]), "NTooSmall"))
+    return errs((half_not_pos(c["m"]), "MTooSmall"), (half_not_pos(c["n"]), "NTooSmall"))
 
 
 def _beta_new(c):
@@ -216,8 +229,10 @@ def _dirichlet_new(c):
         return {"AlphaTooShort"}
     if a.len_lo < 2:
         return None
-    e = a.elem
-    return errs((not_pos(e), "AlphaTooSmall"), (e.pinf, "AlphaInfinite"), (e.pos and e.lt(a.min_pos), "AlphaSubnormal"))
+    # every variant whose documented condition holds for SOME entry is allowed; Ok iff none holds for any entry
+    es = a.elems
+    return errs((any(not_pos(e) for e in es), "AlphaTooSmall"), (any(e.pinf for e in es), "AlphaInfinite"),
+                (any(e.pos and e.lt(a.min_pos) for e in es), "AlphaSubnormal"))
 
 
 F = "f"
